@@ -270,7 +270,7 @@ func codecCase(rep *Report, s *glue.Subject, d MD, idx int) {
 
 	// --- materialise the subject three ways; rotate which one is the main subject
 	var S proto.Message
-	route := idx % 4
+	route := idx % 5
 	exp, expIR := want, v
 	var pmsg string
 	var pan bool
@@ -286,8 +286,27 @@ func codecCase(rep *Report, s *glue.Subject, d MD, idx int) {
 	case 3:
 		// struct-level state: every absent list/map/bytes field is an empty, allocated container
 		pan, pmsg = safely(func() { S = BuildStruct(s.Zero, v); nilToEmpty(reflect.ValueOf(S), 0) })
+	case 4:
+		// struct-level state: nil pointers as message list elements / map values (they read as empty messages);
+		// the expected encoding is what the struct observer reads back
+		pan, pmsg = safely(func() {
+			S = BuildStruct(s.Zero, v)
+			if nilOutMessages(reflect.ValueOf(S), r, 0) > 0 {
+				rep.Count("C04", "subjects-with-nil-elements", 1)
+			}
+			nIR := Canon(StructToIR(S))
+			nb := SpecEncode(nIR)
+			// a nil element of an embedded proto2 type reads as a message without its required fields: keep the original then
+			dm := dynamicpb.NewMessage(s.Zero.ProtoReflect().Descriptor())
+			if e := (proto.UnmarshalOptions{AllowPartial: true}).Unmarshal(nb, dm); e != nil || proto.CheckInitialized(dm) != nil {
+				S = BuildStruct(s.Zero, v)
+				return
+			}
+			expIR, exp = nIR, nb
+			want, wantQ, vq = exp, SpecEncode(quietF32(expIR)), quietF32(expIR)
+		})
 	}
-	routeName := []string{"struct", "slow-set", "fast-set", "struct+empty-containers"}[route]
+	routeName := []string{"struct", "slow-set", "fast-set", "struct+empty-containers", "struct+nil-elements"}[route]
 	rep.Count("C01", "route/"+routeName, 1)
 	if pan {
 		if route == 2 {
@@ -373,6 +392,21 @@ func codecCase(rep *Report, s *glue.Subject, d MD, idx int) {
 				rep.Violate("C01", "codec/encoding-rejected-by-reference/"+mode, tn, "reference decoder rejects Marshal output: "+e.Error(), rc)
 			} else if db, _ := detOpts.Marshal(d2); !bytes.Equal(db, wantQ) {
 				rep.Violate("C01", "codec/encoding-reference-decode/"+mode, tn, "reference decode of Marshal output differs: "+firstDiff(db, wantQ), rc)
+			}
+		}
+	}
+
+	if idx == 0 {
+		nilPtr := reflect.Zero(reflect.TypeOf(s.Zero)).Interface().(proto.Message)
+		for _, o := range []proto.MarshalOptions{plainOpts, detOpts} {
+			var out []byte
+			var aerr error
+			pan, pmsg = safely(func() { out, aerr = o.MarshalAppend([]byte("prefix"), nilPtr) })
+			if pan || aerr != nil || string(out) != "prefix" {
+				rep.Violate("C04", "codec/marshalappend/nil-message", tn, fmt.Sprintf("MarshalAppend(prefix, (*T)(nil)) = %q, err=%v %s; want the prefix unchanged", out, aerr, pmsg), rc)
+			}
+			if o.Size(nilPtr) != 0 {
+				rep.Violate("C04", "codec/size/nil-message", tn, "Size of a nil message is not 0", rc)
 			}
 		}
 	}
